@@ -258,6 +258,9 @@ func (g *c03Gen) keyVal() interface{} {
 		return int64(10)
 	case 0:
 		return "k" + strconv.Itoa(g.r.Intn(4))
+	case 4:
+		// a string that prints like one of the integer keys: another key
+		return strconv.Itoa(10 + g.r.Intn(6))
 	case 1, 2, 3:
 		// keys that collide with scalar elements: a scalar and an object keyed by it share a reorder key
 		return []interface{}{int64(1), int64(2), int64(3), "a", "b", int64(-1)}[g.r.Intn(6)]
@@ -343,6 +346,22 @@ func (g *c03Gen) mutate(v interface{}, depth int) interface{} {
 				if g.r.Chance(0.1) {
 					if g.r.Chance(0.5) {
 						m[k] = g.keyVal()
+					}
+				} else if g.r.Chance(0.08) {
+					// a key of another JSON type that prints alike: a different object
+					switch kv := x.(type) {
+					case int64:
+						m[k] = strconv.FormatInt(kv, 10)
+					case string:
+						if n, err := strconv.ParseInt(kv, 10, 64); err == nil {
+							m[k] = n
+						} else {
+							m[k] = x
+						}
+					case bool:
+						m[k] = strconv.FormatBool(kv)
+					default:
+						m[k] = x
 					}
 				} else {
 					m[k] = x
@@ -455,11 +474,11 @@ type c03Case struct {
 type c03JSJob struct {
 	modelJS interface{}
 	in      *c03Intern
-	c    c03Case
-	prev interface{}
-	d    interface{}
-	spec string
-	has  bool
+	c       c03Case
+	prev    interface{}
+	d       interface{}
+	spec    string
+	has     bool
 }
 
 func c03HasNullKey(v interface{}) bool {
@@ -695,7 +714,7 @@ func runC03(c *Ctx) error {
 		return err
 	}
 	defer m.Close()
-	c.Rep.Rule = "mutation-based JSON pairs (new derived from old by reorder/insert/delete/duplicate/truncate/type change/null/field appear+disappear/__key change); a case is non-trivial when Diff(old,new) is non-empty; distinct by canonical (old,new)"
+	c.Rep.Rule = "mutation-based JSON pairs (new derived from old by reorder/insert/delete/duplicate/truncate/type change/null/field appear+disappear/__key change, also to a key of another JSON type that prints alike); a case is non-trivial when Diff(old,new) is non-empty; distinct by canonical (old,new)"
 	c.Rep.Assumptions = append(c.Rep.Assumptions,
 		"encoding/json marshalling of Go scalars and base64 of []byte is trusted",
 		"merge.ts is executed by node after stripping the type annotations of its signature",
@@ -755,16 +774,16 @@ func c03Corpus() []c03Case {
 	a := func(xs ...interface{}) []interface{} { return append([]interface{}{}, xs...) }
 	i := func(n int) interface{} { return int64(n) }
 	return []c03Case{
-		{o("a", i(1)), o("a", i(1), "f", a("x", "y"))},                                   // new array field
-		{o("a", i(1)), o("a", i(1), "f", o("b", i(2)))},                                  // new object field
-		{o("a", i(1)), o("a", i(1), "f", nil)},                                           // new null field
-		{a(i(0), i(1), i(2), i(3), i(4), i(5)), a(i(2), i(3), i(4), i(0))},               // run [2,3]
-		{a(i(7), i(-1)), a(i(-1), i(7))},                                                 // merge.ts: merged[x] === -1
+		{o("a", i(1)), o("a", i(1), "f", a("x", "y"))},                     // new array field
+		{o("a", i(1)), o("a", i(1), "f", o("b", i(2)))},                    // new object field
+		{o("a", i(1)), o("a", i(1), "f", nil)},                             // new null field
+		{a(i(0), i(1), i(2), i(3), i(4), i(5)), a(i(2), i(3), i(4), i(0))}, // run [2,3]
+		{a(i(7), i(-1)), a(i(-1), i(7))},                                   // merge.ts: merged[x] === -1
 		{a(o("__key", i(10), "a", "bob"), o("__key", i(13), "a", "alice")), a(o("__key", i(13), "a", "alice"), o("__key", i(10), "a", "bob", "b", i(23)))},
 		{o("a", []byte{1, 2}), o("a", []byte{1, 3})},
 		{a(o("__key", "a", "b", i(1)), o("__key", "b", "b", i(2))), a(o("__key", "a", "b", i(1)), "b")}, // scalar equal to the key of the object it replaces
-		{o("__key", nil, "a", i(1)), o("a", i(1))}, // nil __key disappears
-		{o("a", i(1)), o("__key", nil, "a", i(1))}, // nil __key appears
+		{o("__key", nil, "a", i(1)), o("a", i(1))},                                                      // nil __key disappears
+		{o("a", i(1)), o("__key", nil, "a", i(1))},                                                      // nil __key appears
 	}
 }
 
